@@ -1,6 +1,7 @@
 import HdVerif.Model.Json
 import HdVerif.Model.SRItems
-open Lean HdVerif HdVerif.Drv HdVerif.SRItems
+import HdVerif.Model.SRItemsArgs
+open Lean HdVerif HdVerif.Drv HdVerif.SRItems HdVerif.SRItemsArgs
 
 /-! JSON forms
 code  = [value, scheme, meaning, version|null]
@@ -185,6 +186,35 @@ def flOfJson (a : Json) : Except String (Rat → Rat) := do
       | _ => throw "fl: pairs expected"
     pure (fun x => (ps.lookup x).getD x)
 
+/-- a frame / segment number argument: null | {"scalar": n} | {"seq": [n…]} | [n…] (= seq) -/
+def numsOfJson : Json → Except String (Option Nums)
+  | .null => pure none
+  | j => do
+    match j.getObjVal? "scalar" with
+    | .ok v => return some (.scalar (← v.getInt?))
+    | .error _ => pure ()
+    match j.getObjVal? "seq" with
+    | .ok v => return some (.seq (← intListOfJson v))
+    | .error _ => return some (.seq (← intListOfJson j))
+
+def optRatList : Json → Except String (Option (List Rat))
+  | .null => pure none
+  | v => some <$> ratListOfJson v
+
+def optStrList : Json → Except String (Option (List String))
+  | .null => pure none
+  | v => some <$> strListOfJson v
+
+def spellingOfJson (a : Json) : Except String NumSpelling := do
+  match a.getObjVal? "spelling" with
+  | .ok v =>
+    match ← v.getStr? with
+    | "pyInt" => pure .pyInt | "pyFloat" => pure .pyFloat | "pyBool" => pure .pyBool | "npFloat64" => pure .npFloat64
+    | "npInt64" => pure .npInt64 | "npInt32" => pure .npInt32 | "npFloat32" => pure .npFloat32 | "decimal" => pure .decimal
+    | "str" => pure .str
+    | s => throw s!"unknown NUM spelling {s}"
+  | .error _ => pure (if (← getBool a "float") then .pyFloat else .pyInt)
+
 /-- spec → the model's constructor call; `Except String` = protocol error, inner = the constructor's verdict -/
 partial def buildSpec (j : Json) : Except String (Except ErrKind Item) := do
   let vt ← getStr j "vt"
@@ -203,36 +233,47 @@ partial def buildSpec (j : Json) : Except String (Except ErrKind Item) := do
       let q ← match a.getObjValD "qualifier" with
         | .null => pure none
         | x => some <$> codeOfJson x
-      pure (mkNum id name (← getRat a "value") (← getBool a "float") (← codeOfJson (← a.getObjVal? "unit")) q rel)
-    | "CONTAINER" => pure (mkContainer name (← getBool a "continuous") (← getOptStr a "template") rel)
+      pure (mkNumA id name (← getRat a "value") (← spellingOfJson a) (← codeOfJson (← a.getObjVal? "unit")) q rel)
+    | "CONTAINER" =>
+      let c ← match a.getObjValD "continuous" with
+        | .null => pure none
+        | v => some <$> v.getBool?
+      pure (mkContainerA name c (← getOptStr a "template") rel)
     | "COMPOSITE" => pure (mkComposite name (← getStr a "cls") (← getStr a "inst") rel)
-    | "IMAGE" => pure (mkImage name (← getStr a "cls") (← getStr a "inst") (← optIntList (a.getObjValD "frames"))
-                        (← optIntList (a.getObjValD "segments")) rel)
+    | "IMAGE" => pure (mkImageA name (← getStr a "cls") (← getStr a "inst") (← numsOfJson (a.getObjValD "frames"))
+                        (← numsOfJson (a.getObjValD "segments")) rel)
     | "WAVEFORM" =>
       let ch ← match a.getObjValD "channels" with
         | .null => pure none
         | x => do
           let l ← (← x.getArr?).toList.mapM intListOfJson
-          let ps ← l.mapM fun p => match p with
-            | [u, v] => pure (u, v)
-            | _ => throw "channel pair expected"
-          pure (some ps)
-      pure (mkWaveform name (← getStr a "cls") (← getStr a "inst") ch rel)
+          pure (some l)
+      pure (mkWaveformA name (← getStr a "cls") (← getStr a "inst") ch rel)
     | "SCOORD" => pure (mkScoord (← flOfJson a) name (← getStr a "gt") (← pointsOfJson a) (← getOptStr a "origin") (← getOptStr a "fiducial") rel)
     | "SCOORD3D" => pure (mkScoord3d (← flOfJson a) name (← getStr a "gt") (← pointsOfJson a) (← getStr a "frame_of_reference")
                           (← getOptStr a "fiducial") rel)
     | "TCOORD" =>
-      let arg ← match a.getObjValD "kind" with
-        | .null => pure none
-        | k => do
-          let ks ← k.getStr?
-          let v ← a.getObjVal? "values"
-          match ks with
-          | "positions" => pure (some (TArg.positions (← intListOfJson v)))
-          | "offsets" => pure (some (TArg.offsets (← ratListOfJson v)))
-          | "datetimes" => pure (some (TArg.datetimes (← strListOfJson v)))
-          | _ => throw "tcoord kind"
-      pure (mkTcoord id name (← getStr a "range") arg rel)
+      match a.getObjVal? "kind" with
+      | .ok k =>
+        -- older cases (corpus): exactly one argument, named by "kind"
+        let arg ← match k with
+          | .null => pure none
+          | k => do
+            let ks ← k.getStr?
+            let v ← a.getObjVal? "values"
+            match ks with
+            | "positions" => pure (some (TArg.positions (← intListOfJson v)))
+            | "offsets" => pure (some (TArg.offsets (← ratListOfJson v)))
+            | "datetimes" => pure (some (TArg.datetimes (← strListOfJson v)))
+            | _ => throw "tcoord kind"
+        match arg with
+        | none => pure (mkTcoordA id name (← getStr a "range") none none none rel)
+        | some (.positions l) => pure (mkTcoordA id name (← getStr a "range") (some l) none none rel)
+        | some (.offsets l) => pure (mkTcoordA id name (← getStr a "range") none (some l) none rel)
+        | some (.datetimes l) => pure (mkTcoordA id name (← getStr a "range") none none (some l) rel)
+      | .error _ =>
+        pure (mkTcoordA id name (← getStr a "range") (← optIntList (a.getObjValD "positions")) (← optRatList (a.getObjValD "offsets"))
+                (← optStrList (a.getObjValD "datetimes")) rel)
     | _ => throw s!"unknown value type {vt}"
   match r with
   | .error e => pure (.error e)
